@@ -156,6 +156,9 @@ struct ItemSpec {
     /// `V[k].m()` → `f_at(&mut V, k)`
     #[serde(default)]
     method_to_fn: Vec<(String, String, String)>,
+    /// same, but the receiver is passed by value: `R.m(args)` → `f(R, args)`
+    #[serde(default)]
+    method_to_fn_val: Vec<(String, String, String)>,
     /// N4: names for tuple-pattern parameters, by parameter index ("2" -> "t1")
     #[serde(default)]
     arg_names: BTreeMap<String, String>,
@@ -404,6 +407,7 @@ impl<'ast, 't> Visit<'ast> for LoopCollector<'t> {
 // ---------------------------------------------------------------- normalisation rules
 
 struct Normaliser<'t> {
+    method_to_fn_val: Vec<(Regex, String, String)>,
     skip_sites: &'t [String],
     method_to_fn: Vec<(Regex, String, String)>,
     eq_sites: Vec<Regex>,
@@ -755,6 +759,28 @@ impl<'t> Normaliser<'t> {
 }
 
 impl<'t> Normaliser<'t> {
+    /// N20: `Some(&x)` = E  →  `Some(x)` = (E).copied()   (Verus has no reference patterns)
+    fn try_n20(&mut self, pat: &syn::Pat, init: &syn::Expr) -> bool {
+        if !(self.on)("N20") {
+            return false;
+        }
+        let syn::Pat::TupleStruct(ts) = pat else { return false };
+        if !ts.path.is_ident("Some") || ts.elems.len() != 1 {
+            return false;
+        }
+        let syn::Pat::Reference(rp) = &ts.elems[0] else { return false };
+        if rp.mutability.is_some() || !matches!(&*rp.pat, syn::Pat::Ident(_)) {
+            return false;
+        }
+        let (rs, _) = br(rp.and_token.span());
+        let (is, ie) = br(init.span());
+        let Some(mk) = self.site("N20", is, ie) else { return false };
+        self.push(rs, rs + 1, String::new(), "N20");
+        let old = self.text[is..ie].to_string();
+        self.push(is, ie, format!("({}).copied(){}", old, mk), "N20");
+        true
+    }
+
     /// N14: in a `for` body, `if C { T; continue; } REST` → `if C { T } else { REST }`
     /// (Verus' for-loops do not support `continue`)
     fn try_n14(&mut self, body: &syn::Block) -> bool {
@@ -947,6 +973,19 @@ impl<'ast, 't> Visit<'ast> for Normaliser<'t> {
         syn::visit::visit_expr_path(self, p);
     }
     fn visit_expr_method_call(&mut self, mc: &'ast syn::ExprMethodCall) {
+        if !self.method_to_fn_val.is_empty() && (self.on)("N18") {
+            let recv = self.t(mc.receiver.span());
+            let hit = self.method_to_fn_val.iter().find(|(r, m, _)| mc.method == m.as_str() && r.is_match(recv)).cloned();
+            if let Some((_, _, f)) = hit {
+                let mut a = vec![recv.to_string()];
+                a.extend(mc.args.iter().map(|x| self.t(x.span()).to_string()));
+                let (s, e) = br(mc.span());
+                if let Some(mk) = self.site("N18", s, e) {
+                    self.push(s, e, format!("{}({}){}", f, a.join(", "), mk), "N18");
+                    return;
+                }
+            }
+        }
         if !self.method_to_fn.is_empty() && (self.on)("N18") {
             let recv = self.t(mc.receiver.span());
             let hit = self.method_to_fn.iter().find(|(r, m, _)| mc.method == m.as_str() && r.is_match(recv)).cloned();
@@ -1022,7 +1061,16 @@ impl<'ast, 't> Visit<'ast> for Normaliser<'t> {
         }
         syn::visit::visit_expr_field(self, f);
     }
+    fn visit_expr_let(&mut self, l: &'ast syn::ExprLet) {
+        self.try_n20(&l.pat, &l.expr);
+        syn::visit::visit_expr_let(self, l);
+    }
     fn visit_local(&mut self, l: &'ast syn::Local) {
+        if let Some(init) = &l.init {
+            if self.try_n20(&l.pat, &init.expr) {
+                return;
+            }
+        }
         // N15: type ascription
         if let syn::Pat::Ident(pi) = &l.pat {
             if let Some(ty) = self.let_types.get(&pi.ident.to_string()) {
@@ -1367,7 +1415,7 @@ fn main() {
             };
             for fp in &fns {
                 sig_edits(&text, fp, &on, &it.arg_names, &mut edits);
-                let mut nz = Normaliser { skip_sites: &job.skip_sites, method_to_fn: it.method_to_fn.iter().filter_map(|(r, m, f)| Regex::new(r).ok().map(|r| (r, m.clone(), f.clone()))).collect(), eq_sites: it.eq_sites.iter().filter_map(|r| Regex::new(r).ok()).collect(), deref_operands: it.deref_operands.clone(), sends: it.sends.clone(), n2_types: it.n2_types.iter().filter_map(|(r, t)| Regex::new(r).ok().map(|r| (r, t.clone()))).collect(), let_types: it.let_types.clone(), n9: it.n9, n6: it.n6.clone(), reg_index: it.reg_index.clone(), bool_and: it.bool_and.iter().filter_map(|r| Regex::new(r).ok()).collect(), n3_all: it.n3.as_deref() == Some("all"), n3_match: it.n3_match.iter().filter_map(|r| Regex::new(r).ok()).collect(), text: &text, edits: vec![], on: &on, eager_futs: vec![] };
+                let mut nz = Normaliser { method_to_fn_val: it.method_to_fn_val.iter().filter_map(|(r, m, f)| Regex::new(r).ok().map(|r| (r, m.clone(), f.clone()))).collect(), skip_sites: &job.skip_sites, method_to_fn: it.method_to_fn.iter().filter_map(|(r, m, f)| Regex::new(r).ok().map(|r| (r, m.clone(), f.clone()))).collect(), eq_sites: it.eq_sites.iter().filter_map(|r| Regex::new(r).ok()).collect(), deref_operands: it.deref_operands.clone(), sends: it.sends.clone(), n2_types: it.n2_types.iter().filter_map(|(r, t)| Regex::new(r).ok().map(|r| (r, t.clone()))).collect(), let_types: it.let_types.clone(), n9: it.n9, n6: it.n6.clone(), reg_index: it.reg_index.clone(), bool_and: it.bool_and.iter().filter_map(|r| Regex::new(r).ok()).collect(), n3_all: it.n3.as_deref() == Some("all"), n3_match: it.n3_match.iter().filter_map(|r| Regex::new(r).ok()).collect(), text: &text, edits: vec![], on: &on, eager_futs: vec![] };
                 nz.visit_block(fp.block);
                 edits.extend(nz.edits);
                 let _ = fp.whole;
